@@ -250,6 +250,14 @@ def handleK (j : Json) : Except String Json := do
     | "utgetitem" =>
       let idx ← parseIdx (← j.getObjValAs? (Array Json) "idx")
       optArr (utGetitem x idx)
+    | "utsetitem" =>
+      let idx ← parseIdx (← j.getObjValAs? (Array Json) "idx")
+      let v : NdArray K ← getArr j "v"
+      optArr (utSetitem x idx v)
+    | "utsetitemconst" =>
+      let idx ← parseIdx (← j.getObjValAs? (Array Json) "idx")
+      let c : NdArray K ← getArr j "v"
+      optArr (utSetitemConst x idx c)
     | "sum" =>
       let ax ← j.getObjValAs? Nat "axis"
       pure (okArrs [sumAxis x ax])
